@@ -363,6 +363,17 @@ func runC14(r *mc.Run) {
 			tp(p).AnyMrTd = [][]byte{w}
 			add("nearmiss/any_mr_td/"+name, p)
 		})
+		// the quote's MR_TD straddling two neighbouring entries (a search over the concatenated list finds it)
+		for k := 1; k < 48; k++ {
+			a := append(append([]byte{}, world.Fill("c14-straddle-a", k)...), mr[:48-k]...)
+			b := append(append([]byte{}, mr[48-k:]...), world.Fill("c14-straddle-b", 48-k)...)
+			p := &ccpb.Policy{}
+			tp(p).AnyMrTd = [][]byte{a, b}
+			add(fmt.Sprintf("nearmiss/any_mr_td/straddle@%d", k), p)
+			p2 := &ccpb.Policy{}
+			tp(p2).AnyMrTd = [][]byte{world.Fill("c14-other", 48), a, b, world.Fill("c14-other2", 48)}
+			add(fmt.Sprintf("nearmiss/any_mr_td/straddle-inside-list@%d", k), p2)
+		}
 		for _, f := range polFields {
 			if f.name == "minimum_tee_tcb_svn" {
 				continue
